@@ -364,12 +364,13 @@ def run_case(case):
     gran = case.get('gran', 'line')
     n = len(lists)
     alone = [[served_alone(sp, cfg, gran) for sp in lst] for lst in lists]
+    flush_process_state()
     saved_tpl = None
     if case.get('cold'):
+        # after the flush (which renders an error page), so that the scheduled threads really start cold
         from ombott import error_render
         saved_tpl = list(error_render._html_lns)
         del error_render._html_lns[:]
-    flush_process_state()
     app = new_app(cfg)
     outs = [[Outcome() for _ in lst] for lst in lists]
     inflight = set()
